@@ -720,6 +720,29 @@ func ruleACC(c *Ctx) []Obligation {
 				return true
 			}
 			stack = append(stack, n)
+			// an accessor handed on as a method value (irCallSiteOperands(…, old.Callee, …)): the function
+			// that receives it calls it — a read whose result is used
+			if mv, isSel := n.(*ast.SelectorExpr); isSel && len(stack) >= 2 {
+				if sel, ok := info.Selections[mv]; ok && sel.Kind() == types.MethodVal {
+					if recv := astNode(sel.Recv()); recv != nil {
+						if pc, isCall := stack[len(stack)-2].(*ast.CallExpr); isCall && unparen(pc.Fun) != ast.Expr(mv) {
+							isArg := false
+							for _, a := range pc.Args {
+								if unparen(a) == ast.Expr(mv) {
+									isArg = true
+								}
+							}
+							if isArg {
+								key := recv.Obj().Name() + "." + mv.Sel.Name
+								if called[key] == nil {
+									called[key] = &callInfo{pos: mv.Pos()}
+								}
+								called[key].used = true
+							}
+						}
+					}
+				}
+			}
 			call, ok := n.(*ast.CallExpr)
 			if !ok {
 				return true
